@@ -14,7 +14,7 @@ from .. import gens
 from ..harness import digest, quiet
 
 MANIFEST = {
-    'text': 'Held on every call executed: get_cycle_stat is compared with a direct per-label computation for seeded label vectors (1-8 cycles, -1 gaps anywhere, all -1) x value vectors x {mean, max, sum, len, first, ptp, median lambdas} x both output modes; phase_align is compared with g(bin centres) for linear and smooth g on monotone multi-cycle phases with cycle lengths 8..400, npoints 2..64 and interpolation kinds {linear, quadratic, cubic}, with implicit and explicit cycle vectors; bin_by_phase is compared with per-bin means for nbins 2..64 and custom edges. Sampling, not proof.',
+    'text': 'Held on every call executed: get_cycle_stat is compared with a direct per-label computation for seeded label vectors (1-8 cycles, -1 gaps anywhere, all -1) x value vectors x {mean, max, sum, len, first, ptp, median lambdas} x both output modes; phase_align is compared with g(bin centres) for linear and smooth g on monotone multi-cycle phases with cycle lengths 8..400, npoints 2..64 and interpolation kinds {linear, quadratic, cubic}, with implicit and explicit cycle vectors; bin_by_phase is compared with per-bin means for nbins 2..64 and custom edges. Sampling, not proof. A quarter of the shards run in a session that turns Deprecation/Future/UserWarnings into errors.',
     'note': 'Trusted: scipy.interpolate.interp1d, numpy. The interpolation bound for smooth g is 2*h^2*max|g\'\'| with h the largest phase step of the cycle (extrapolation to the first/last bin centre included); the largest ratio observed is reported.',
     'technique': 'direct-recomputation oracle on the real per-cycle routines, seeded random workload',
 }
